@@ -314,7 +314,7 @@ def refplot_from_desc(desc):
     for lv in range(nlev):
         lvb = []
         lvd = []
-        for (lo, hi) in d["levels"][lv]:
+        for bnum, (lo, hi) in enumerate(d["levels"][lv]):
             lo = tuple(int(a) for a in lo)
             hi = tuple(int(a) for a in hi)
             lvb.append((lo, hi))
@@ -324,6 +324,10 @@ def refplot_from_desc(desc):
             arr = np.empty(shape + (len(fields),))
             for f, kind in enumerate(kinds):
                 a = gen_field(kind, lv, f, idx, cen, d["seed"])
+                if kind == 'boxcancel':
+                    # box sums 1e16, 1, -1e16, 1, ... in box order (exact: cell counts are powers of two or small):
+                    # sequential accumulation gives another result than any regrouping of the boxes
+                    a = np.full(shape, [1e16, 1.0, -1e16, 1.0][bnum % 4] / float(np.prod(shape)))
                 if hostile:
                     a = apply_hostile(a, f, nan=(payload == 'hostile'))
                 arr[..., f] = a
